@@ -73,6 +73,46 @@ theorem linear_velocity_is_omega_rp {el : Ell} (h : Valid el) (lat : ℝ) :
   ⟨_, _, linear_velocity_eq h lat, rp_eq h lat, rfl⟩
 
 
+/-- Boundary values of the parallel radius: `rp = a` on the equator and `rp = 0` at both poles (hence the linear
+    speed is `ω a` on the equator and 0 at the poles). -/
+theorem rp_equator_and_poles {el : Ell} (h : Valid el) :
+    rp el 0 = .ok el.a ∧ rp el 90 = .ok 0 ∧ rp el (-90) = .ok 0 ∧
+    linear_velocity el 0 = .ok (el.omega * el.a) ∧ linear_velocity el 90 = .ok 0 := by
+  have h0 : pradians 0 = 0 := by simp [pradians]
+  have hp : pradians 90 = π / 2 := by unfold pradians; ring
+  have hn : pradians (-90) = -(π / 2) := by unfold pradians; ring
+  refine ⟨?_, ?_, ?_, ?_, ?_⟩
+  · rw [rp_eq h, h0, Real.cos_zero, Real.sin_zero]; congr 1; simp
+  · rw [rp_eq h, hp, Real.cos_pi_div_two]; congr 1; simp
+  · rw [rp_eq h, hn, Real.cos_neg, Real.cos_pi_div_two]; congr 1; simp
+  · rw [linear_velocity_eq h, h0, Real.cos_zero, Real.sin_zero]; congr 1; simp
+  · rw [linear_velocity_eq h, hp, Real.cos_pi_div_two]; congr 1; simp
+
+/-- `Earth.rho` (Meeus' trigonometric series for the IAU 1976 ellipsoid): it is even in the latitude, equals exactly 1
+    on the equator, `0.9966472` at the poles — the ratio `b/a = 1 − 1/298.257` of IAU76 to 1e-7 — and stays between
+    these two values for every latitude. -/
+theorem rho_series (lat : ℝ) :
+    rho (-lat) = rho lat ∧ rho 0 = 1 ∧ rho 90 = 0.9966472 ∧ |rho 90 - IAU76.b / IAU76.a| < 1e-7 ∧
+    0.9966472 ≤ rho lat ∧ rho lat ≤ 1 := by
+  have hneg : pradians (-lat) = -pradians lat := by unfold pradians; ring
+  have h0 : pradians 0 = 0 := by simp [pradians]
+  have h90 : rho 90 = 0.9966472 := by
+    have hp2 : 2.0 * pradians 90 = π := by unfold pradians; norm_num; ring
+    have hp4 : 4.0 * pradians 90 = 2 * π := by unfold pradians; norm_num; ring
+    unfold rho pcos; dsimp only; rw [hp2, hp4, Real.cos_pi, Real.cos_two_pi]; norm_num
+  refine ⟨?_, ?_, h90, ?_, ?_, ?_⟩
+  · unfold rho pcos; dsimp only; rw [hneg, mul_neg, mul_neg, Real.cos_neg, Real.cos_neg]
+  · unfold rho pcos; dsimp only; rw [h0, mul_zero, mul_zero, Real.cos_zero]; norm_num
+  · rw [h90, b_eq]; norm_num [IAU76, abs_lt]
+  all_goals
+    have h4 : Real.cos (4.0 * pradians lat) = 2 * Real.cos (2.0 * pradians lat) ^ 2 - 1 := by
+      rw [show (4.0 : ℝ) * pradians lat = 2 * (2.0 * pradians lat) by norm_num; ring, Real.cos_two_mul]
+    have hx1 := Real.neg_one_le_cos (2.0 * pradians lat)
+    have hx2 := Real.cos_le_one (2.0 * pradians lat)
+    unfold rho pcos; dsimp only; rw [h4]
+    norm_num
+    nlinarith
+
 /-! ## Meridian radius of curvature -/
 
 /-- "the meridian radius of curvature runs from b^2/a at the equator …" -/
@@ -232,6 +272,327 @@ theorem distance_equator {el : Ell} (lon1 lon2 : ℝ) (hd : |lon1 - lon2| < 180)
     rw [hlam2, abs_mul, abs_of_pos (by norm_num : (0:ℝ) < 2)]
     ring
 
+/-- The result depends on the longitudes only through their difference modulo a whole turn: adding 360° to either
+    longitude changes nothing (value or exception).  (Pins the unit of any "short way round" wrap: a wrap by 360
+    applied to the radian value would break this.) -/
+theorem distance_longitude_periodic (el : Ell) (lon1 lat1 lon2 lat2 : ℝ) :
+    distance el (lon1 + 360) lat1 lon2 lat2 = distance el lon1 lat1 lon2 lat2 ∧
+    distance el lon1 lat1 (lon2 + 360) lat2 = distance el lon1 lat1 lon2 lat2 := by
+  have h1 : (pradians (lon1 + 360) - pradians lon2) / 2 = (pradians lon1 - pradians lon2) / 2 + π := by
+    unfold pradians; ring
+  have h2 : (pradians lon1 - pradians (lon2 + 360)) / 2 = (pradians lon1 - pradians lon2) / 2 - π := by
+    unfold pradians; ring
+  constructor
+  · rw [distance_eq_andoyer, distance_eq_andoyer, h1, Real.sin_add_pi, Real.cos_add_pi, neg_sq, neg_sq]
+  · rw [distance_eq_andoyer, distance_eq_andoyer, h2, Real.sin_sub_pi, Real.cos_sub_pi, neg_sq, neg_sq]
+
+/-- Haversine structure of the two auxiliary quantities of `Earth.distance`: with `F = (φ₁+φ₂)/2`, `G = (φ₁−φ₂)/2`,
+    `L = (λ₁−λ₂)/2`, `s = sin²G cos²L + cos²F sin²L` and `c = cos²G cos²L + sin²F sin²L` satisfy `s + c = 1` for all
+    inputs, so `0 ≤ s ≤ 1`, `c = 0` exactly for antipodal points, and `ω = atan sqrt(s/c) = asin sqrt(s)` is half the
+    spherical distance (haversine formula). -/
+theorem haversine_identity (F G L : ℝ) :
+    (Real.sin G ^ 2 * Real.cos L ^ 2 + Real.cos F ^ 2 * Real.sin L ^ 2)
+      + (Real.cos G ^ 2 * Real.cos L ^ 2 + Real.sin F ^ 2 * Real.sin L ^ 2) = 1 ∧
+    (0 < Real.cos G ^ 2 * Real.cos L ^ 2 + Real.sin F ^ 2 * Real.sin L ^ 2 →
+      Real.arctan (Real.sqrt ((Real.sin G ^ 2 * Real.cos L ^ 2 + Real.cos F ^ 2 * Real.sin L ^ 2)
+          / (Real.cos G ^ 2 * Real.cos L ^ 2 + Real.sin F ^ 2 * Real.sin L ^ 2)))
+        = Real.arcsin (Real.sqrt (Real.sin G ^ 2 * Real.cos L ^ 2 + Real.cos F ^ 2 * Real.sin L ^ 2))) := by
+  have h := s_add_c F G L
+  refine ⟨h, fun hc => ?_⟩
+  have hs0 : 0 ≤ Real.sin G ^ 2 * Real.cos L ^ 2 + Real.cos F ^ 2 * Real.sin L ^ 2 := by positivity
+  have hc' : Real.cos G ^ 2 * Real.cos L ^ 2 + Real.sin F ^ 2 * Real.sin L ^ 2
+      = 1 - (Real.sin G ^ 2 * Real.cos L ^ 2 + Real.cos F ^ 2 * Real.sin L ^ 2) := by linarith
+  rw [hc']
+  exact arctan_sqrt_ratio hs0 (by linarith)
+
+/-- `Earth.distance` IS Andoyer's formula, for every ellipsoid and every pair of points that is neither coincident
+    (`s = 0`) nor antipodal (`c = 0`): `dist = 2 ω a (1 + f (H₁ sin²F cos²G − H₂ cos²F sin²G))`, `ω = atan sqrt(s/c)`,
+    `R = sqrt(s c)/ω`, `H₁ = (3R−1)/(2c)`, `H₂ = (3R+1)/(2s)`, and the error estimate is `round(dist f², 0)` — with NO
+    other case distinction: in particular no threshold on `s` (two points 1 m apart are not "coincident") and no
+    special branch near the antipode. -/
+theorem distance_is_andoyer (el : Ell) (lon1 lat1 lon2 lat2 : ℝ) :
+    let F := (pradians lat1 + pradians lat2) / 2
+    let G := (pradians lat1 - pradians lat2) / 2
+    let L := (pradians lon1 - pradians lon2) / 2
+    let s := Real.sin G ^ 2 * Real.cos L ^ 2 + Real.cos F ^ 2 * Real.sin L ^ 2
+    let c := Real.cos G ^ 2 * Real.cos L ^ 2 + Real.sin F ^ 2 * Real.sin L ^ 2
+    let ω := Real.arctan (Real.sqrt (s / c))
+    let R := Real.sqrt (s * c) / ω
+    let H1 := (3 * R - 1) / (2 * c)
+    let H2 := (3 * R + 1) / (2 * s)
+    let d := 2 * ω * el.a * (1 + el.f * (H1 * Real.sin F ^ 2 * Real.cos G ^ 2 - H2 * Real.cos F ^ 2 * Real.sin G ^ 2))
+    (s = 0 → distance el lon1 lat1 lon2 lat2 = .ok (0, 0)) ∧
+    (s ≠ 0 → c = 0 → distance el lon1 lat1 lon2 lat2 = .error .zeroDivisionError) ∧
+    (0 < s → 0 < c → distance el lon1 lat1 lon2 lat2 = .ok (d, pround0 (d * el.f * el.f))) := by
+  intro F G L s c ω R H1 H2 d
+  rw [distance_eq_andoyer]
+  refine ⟨fun h => andoyer_zero _ _ h, fun hs hc => andoyer_antipodal _ _ hs hc, fun hs hc => ?_⟩
+  rw [andoyer_ok el.a el.f hs hc]
+
+/-- "stays within 0.6 % of the great-circle distance" — PARTIAL.  Proved, for every valid ellipsoid and every pair of
+    points that is neither coincident nor antipodal: the result lies between `(1 − 2.5 f)` and `(1 + f)` times the
+    great-circle distance `2 ω a` on the sphere of radius `a` (`ω = asin sqrt(s)`, haversine), because Andoyer's
+    correction term lies in `[-5/2, 1]` (`R = sin 2ω / 2ω ∈ (0, 1]`, `sin²F cos²G ≤ c`, `cos²F sin²G ≤ s`).  For the
+    built-in ellipsoids this is 0.84 % / 0.34 %.
+    NOT proved (evaluated on the implementation by the harness): the statement's 0.6 %, which holds only against
+    the sphere of MEAN radius (2a+b)/3 and needs the joint range of the two terms, not the separate ranges used here. -/
+theorem distance_near_great_circle_partial {el : Ell} (h : Valid el) (lon1 lat1 lon2 lat2 : ℝ) :
+    let F := (pradians lat1 + pradians lat2) / 2
+    let G := (pradians lat1 - pradians lat2) / 2
+    let L := (pradians lon1 - pradians lon2) / 2
+    let s := Real.sin G ^ 2 * Real.cos L ^ 2 + Real.cos F ^ 2 * Real.sin L ^ 2
+    let c := Real.cos G ^ 2 * Real.cos L ^ 2 + Real.sin F ^ 2 * Real.sin L ^ 2
+    0 < s → 0 < c →
+    ∃ d err, distance el lon1 lat1 lon2 lat2 = .ok (d, err) ∧
+      (1 - 5 / 2 * el.f) * (2 * Real.arcsin (Real.sqrt s) * el.a) ≤ d ∧
+      d ≤ (1 + el.f) * (2 * Real.arcsin (Real.sqrt s) * el.a) ∧ 0 < Real.arcsin (Real.sqrt s) := by
+  intro F G L s c hs hc
+  have hsc : s + c = 1 := s_add_c F G L
+  obtain ⟨hR0, hR1⟩ := R_range hs hc hsc
+  obtain ⟨hP, hQ⟩ := PQ_le F G L
+  have hcorr := correction_range (P := Real.sin F ^ 2 * Real.cos G ^ 2) (Q := Real.cos F ^ 2 * Real.sin G ^ 2)
+    hs hc (by positivity) hP (by positivity) hQ hR0 hR1
+  have hom : Real.arctan (Real.sqrt (s / c)) = Real.arcsin (Real.sqrt s) := by
+    have hc' : c = 1 - s := by linarith
+    rw [hc']; exact arctan_sqrt_ratio hs.le (by linarith)
+  have hpos : 0 < Real.arcsin (Real.sqrt s) := Real.arcsin_pos.mpr (Real.sqrt_pos.mpr hs)
+  obtain ⟨_, _, hform⟩ := distance_is_andoyer el lon1 lat1 lon2 lat2
+  refine ⟨_, _, hform hs hc, ?_, ?_, hpos⟩
+  · rw [hom] at hcorr ⊢
+    have hA : 0 < 2 * Real.arcsin (Real.sqrt s) * el.a := by have := h.a_pos; positivity
+    have hf := h.f_nonneg
+    obtain ⟨lo, _⟩ := hcorr
+    have e : (3 * (Real.sqrt (s * c) / Real.arcsin (Real.sqrt s)) - 1) / (2 * c) * Real.sin F ^ 2 * Real.cos G ^ 2
+        - (3 * (Real.sqrt (s * c) / Real.arcsin (Real.sqrt s)) + 1) / (2 * s) * Real.cos F ^ 2 * Real.sin G ^ 2
+        = (3 * (Real.sqrt (s * c) / Real.arcsin (Real.sqrt s)) - 1) / (2 * c) * (Real.sin F ^ 2 * Real.cos G ^ 2)
+        - (3 * (Real.sqrt (s * c) / Real.arcsin (Real.sqrt s)) + 1) / (2 * s) * (Real.cos F ^ 2 * Real.sin G ^ 2) := by ring
+    rw [e]
+    nlinarith [mul_nonneg hf hA.le]
+  · rw [hom] at hcorr ⊢
+    have hA : 0 < 2 * Real.arcsin (Real.sqrt s) * el.a := by have := h.a_pos; positivity
+    have hf := h.f_nonneg
+    obtain ⟨_, hi⟩ := hcorr
+    have e : (3 * (Real.sqrt (s * c) / Real.arcsin (Real.sqrt s)) - 1) / (2 * c) * Real.sin F ^ 2 * Real.cos G ^ 2
+        - (3 * (Real.sqrt (s * c) / Real.arcsin (Real.sqrt s)) + 1) / (2 * s) * Real.cos F ^ 2 * Real.sin G ^ 2
+        = (3 * (Real.sqrt (s * c) / Real.arcsin (Real.sqrt s)) - 1) / (2 * c) * (Real.sin F ^ 2 * Real.cos G ^ 2)
+        - (3 * (Real.sqrt (s * c) / Real.arcsin (Real.sqrt s)) + 1) / (2 * s) * (Real.cos F ^ 2 * Real.sin G ^ 2) := by ring
+    rw [e]
+    nlinarith [mul_nonneg hf hA.le]
+
+/-- "stays within 0.6 % of the great-circle distance" — the clause itself, against the sphere of mean radius
+    `(2a + b)/3 = a (1 − f/3)`, for every ellipsoid with `0 ≤ f ≤ 0.0035` (both built-in ellipsoids) and EVERY pair of
+    points that is neither coincident nor antipodal.  Sharp form for every valid ellipsoid: the result lies between
+    `(1 − 2f)` and `(1 + f)` times `2 ω a` — Andoyer's correction lies in `[-2, 1]`, because the two terms satisfy
+    `P/c + Q/s ≤ 1` (`s c − P s − Q c = cos²L sin²L (sin²F + sin²G − 1)²`); `1 − 2f` is attained by short north-south
+    arcs at the equator. -/
+theorem distance_within_0_6_percent_of_great_circle {el : Ell} (h : Valid el) (lon1 lat1 lon2 lat2 : ℝ) :
+    let F := (pradians lat1 + pradians lat2) / 2
+    let G := (pradians lat1 - pradians lat2) / 2
+    let L := (pradians lon1 - pradians lon2) / 2
+    let s := Real.sin G ^ 2 * Real.cos L ^ 2 + Real.cos F ^ 2 * Real.sin L ^ 2
+    let c := Real.cos G ^ 2 * Real.cos L ^ 2 + Real.sin F ^ 2 * Real.sin L ^ 2
+    let gc := 2 * Real.arcsin (Real.sqrt s) * ((2 * el.a + el.b) / 3)      -- great circle on the mean sphere
+    0 < s → 0 < c →
+    ∃ d err, distance el lon1 lat1 lon2 lat2 = .ok (d, err) ∧
+      (1 - 2 * el.f) * (2 * Real.arcsin (Real.sqrt s) * el.a) ≤ d ∧
+      d ≤ (1 + el.f) * (2 * Real.arcsin (Real.sqrt s) * el.a) ∧
+      (el.f ≤ 0.0035 → |d - gc| ≤ 0.006 * gc) := by
+  intro F G L s c gc hs hc
+  have hsc : s + c = 1 := s_add_c F G L
+  obtain ⟨hR0, hR1⟩ := R_range hs hc hsc
+  have hjoint := PQ_joint F G L
+  have hcorr := correction_range_joint (P := Real.sin F ^ 2 * Real.cos G ^ 2) (Q := Real.cos F ^ 2 * Real.sin G ^ 2)
+    hs hc (by positivity) (by positivity) hjoint hR0 hR1
+  have hom : Real.arctan (Real.sqrt (s / c)) = Real.arcsin (Real.sqrt s) := by
+    have hc' : c = 1 - s := by linarith
+    rw [hc']; exact arctan_sqrt_ratio hs.le (by linarith)
+  have hpos : 0 < Real.arcsin (Real.sqrt s) := Real.arcsin_pos.mpr (Real.sqrt_pos.mpr hs)
+  obtain ⟨_, _, hform⟩ := distance_is_andoyer el lon1 lat1 lon2 lat2
+  rw [hom] at hcorr
+  have hA : 0 < 2 * Real.arcsin (Real.sqrt s) * el.a := by have := h.a_pos; positivity
+  have hf := h.f_nonneg
+  have e : (3 * (Real.sqrt (s * c) / Real.arcsin (Real.sqrt s)) - 1) / (2 * c) * Real.sin F ^ 2 * Real.cos G ^ 2
+      - (3 * (Real.sqrt (s * c) / Real.arcsin (Real.sqrt s)) + 1) / (2 * s) * Real.cos F ^ 2 * Real.sin G ^ 2
+      = (3 * (Real.sqrt (s * c) / Real.arcsin (Real.sqrt s)) - 1) / (2 * c) * (Real.sin F ^ 2 * Real.cos G ^ 2)
+      - (3 * (Real.sqrt (s * c) / Real.arcsin (Real.sqrt s)) + 1) / (2 * s) * (Real.cos F ^ 2 * Real.sin G ^ 2) := by ring
+  obtain ⟨lo, hi⟩ := hcorr
+  have hlo : (1 - 2 * el.f) * (2 * Real.arcsin (Real.sqrt s) * el.a)
+      ≤ 2 * Real.arctan (Real.sqrt (s / c)) * el.a * (1 + el.f * ((3 * (Real.sqrt (s * c) / Real.arctan (Real.sqrt (s / c))) - 1) / (2 * c) * Real.sin F ^ 2 * Real.cos G ^ 2
+        - (3 * (Real.sqrt (s * c) / Real.arctan (Real.sqrt (s / c))) + 1) / (2 * s) * Real.cos F ^ 2 * Real.sin G ^ 2)) := by
+    rw [hom, e]; nlinarith [mul_nonneg hf hA.le]
+  have hhi : 2 * Real.arctan (Real.sqrt (s / c)) * el.a * (1 + el.f * ((3 * (Real.sqrt (s * c) / Real.arctan (Real.sqrt (s / c))) - 1) / (2 * c) * Real.sin F ^ 2 * Real.cos G ^ 2
+        - (3 * (Real.sqrt (s * c) / Real.arctan (Real.sqrt (s / c))) + 1) / (2 * s) * Real.cos F ^ 2 * Real.sin G ^ 2))
+      ≤ (1 + el.f) * (2 * Real.arcsin (Real.sqrt s) * el.a) := by
+    rw [hom, e]; nlinarith [mul_nonneg hf hA.le]
+  refine ⟨_, _, hform hs hc, hlo, hhi, ?_⟩
+  intro hf35
+  have hgc : gc = (1 - el.f / 3) * (2 * Real.arcsin (Real.sqrt s) * el.a) := by
+    show 2 * Real.arcsin (Real.sqrt s) * ((2 * el.a + el.b) / 3) = _
+    rw [b_eq]; ring
+  rw [hgc, abs_le]
+  norm_num at hf35 ⊢
+  constructor <;> nlinarith [mul_nonneg hf hA.le]
+
+/-- On a sphere (`f = 0`) the surface distance IS the great-circle (haversine) distance `2 a asin sqrt(s)`. -/
+theorem distance_sphere_is_great_circle {el : Ell} (h : Valid el) (hf : el.f = 0) (lon1 lat1 lon2 lat2 : ℝ) :
+    let F := (pradians lat1 + pradians lat2) / 2
+    let G := (pradians lat1 - pradians lat2) / 2
+    let L := (pradians lon1 - pradians lon2) / 2
+    let s := Real.sin G ^ 2 * Real.cos L ^ 2 + Real.cos F ^ 2 * Real.sin L ^ 2
+    let c := Real.cos G ^ 2 * Real.cos L ^ 2 + Real.sin F ^ 2 * Real.sin L ^ 2
+    0 < s → 0 < c →
+    ∃ d err, distance el lon1 lat1 lon2 lat2 = .ok (d, err) ∧ d = 2 * Real.arcsin (Real.sqrt s) * el.a := by
+  intro F G L s c hs hc
+  obtain ⟨d, err, hd, lo, hi, _⟩ := distance_near_great_circle_partial h lon1 lat1 lon2 lat2 hs hc
+  refine ⟨d, err, hd, ?_⟩
+  rw [hf] at lo hi
+  linarith
+
+/-- The hypotheses `0 < s`, `0 < c` are satisfiable: two points 90° apart on the equator (`s = c = 1/2`). -/
+example : 0 < Real.sin ((pradians 0 - pradians 0) / 2) ^ 2 * Real.cos ((pradians 0 - pradians 90) / 2) ^ 2
+      + Real.cos ((pradians 0 + pradians 0) / 2) ^ 2 * Real.sin ((pradians 0 - pradians 90) / 2) ^ 2 := by
+  have h : (pradians 0 - pradians 90) / 2 = -(π / 4) := by unfold pradians; ring
+  have h0 : (pradians 0 + pradians 0) / 2 = 0 := by unfold pradians; ring
+  rw [h, h0, Real.sin_neg, Real.sin_pi_div_four, Real.cos_zero]
+  have : (0:ℝ) < (-(Real.sqrt 2 / 2)) ^ 2 := by
+    have h2 : (0:ℝ) < Real.sqrt 2 := Real.sqrt_pos.mpr (by norm_num)
+    nlinarith
+  nlinarith [sq_nonneg (Real.sin ((pradians 0 - pradians 0) / 2)), sq_nonneg (Real.cos (-(π / 4)))]
+
+/-- "equals … the integral of the meridian radius of curvature along a meridian (1e-4)" — PARTIAL.  Proved, for two
+    distinct points of one meridian less than 180° apart: the spherical angle of Andoyer's formula is exactly the
+    latitude difference, and the result lies between `(1 − 2.5 f)` and `(1 + f)` times `a |Δφ|`.  Since the meridian
+    radius of curvature lies between `b²/a = a(1−f)²` and `a²/b = a/(1−f)` (`rm_monotone`), the meridian arc lies
+    between those multiples of `|Δφ|`, so both agree to a few `f`.
+    NOT proved (evaluated on the implementation against a quadrature): the 1e-4 of the statement — it needs the
+    second-order expansion of the arc integral in `f`, and is false for `f ∈ (0.0099, 0.01]` (listed finding). -/
+theorem distance_meridian_partial {el : Ell} (h : Valid el) (lon : ℝ) {lat1 lat2 : ℝ} (hne : lat1 ≠ lat2)
+    (hlt : |lat1 - lat2| < 180) :
+    ∃ d err, distance el lon lat1 lon lat2 = .ok (d, err) ∧
+      (1 - 5 / 2 * el.f) * (el.a * |pradians lat1 - pradians lat2|) ≤ d ∧
+      d ≤ (1 + el.f) * (el.a * |pradians lat1 - pradians lat2|) := by
+  have hpi := Real.pi_pos
+  obtain ⟨G, hG⟩ : ∃ G, G = (pradians lat1 - pradians lat2) / 2 := ⟨_, rfl⟩
+  have hGe : G = (lat1 - lat2) * (π / 360) := by rw [hG]; unfold pradians; ring
+  have hGabs : |G| < π / 2 := by
+    rw [hGe, abs_mul, abs_of_pos (by positivity : (0:ℝ) < π / 360)]
+    calc |lat1 - lat2| * (π / 360) < 180 * (π / 360) := mul_lt_mul_of_pos_right hlt (by positivity)
+      _ = π / 2 := by ring
+  have hG0 : G ≠ 0 := by
+    rw [hGe]; exact mul_ne_zero (sub_ne_zero.mpr hne) (by positivity)
+  have hcos : 0 < Real.cos G := Real.cos_pos_of_mem_Ioo ⟨(abs_lt.mp hGabs).1, (abs_lt.mp hGabs).2⟩
+  have hsin : Real.sin G ≠ 0 := by
+    intro hs
+    exact hG0 ((Real.sin_eq_zero_iff_of_lt_of_lt (by linarith [(abs_lt.mp hGabs).1]) (by linarith [(abs_lt.mp hGabs).2])).mp hs)
+  have hL : (pradians lon - pradians lon) / 2 = 0 := by ring
+  have key := distance_near_great_circle_partial h lon lat1 lon lat2
+  simp only [hL, Real.sin_zero, Real.cos_zero, ← hG] at key
+  have hs : 0 < Real.sin G ^ 2 * 1 ^ 2 + Real.cos ((pradians lat1 + pradians lat2) / 2) ^ 2 * 0 ^ 2 := by
+    have : 0 < Real.sin G ^ 2 := by positivity
+    nlinarith
+  have hc : 0 < Real.cos G ^ 2 * 1 ^ 2 + Real.sin ((pradians lat1 + pradians lat2) / 2) ^ 2 * 0 ^ 2 := by
+    have : 0 < Real.cos G ^ 2 := by positivity
+    nlinarith
+  obtain ⟨d, err, hd, lo, hi, _⟩ := key hs hc
+  refine ⟨d, err, hd, ?_, ?_⟩
+  all_goals
+    have hsq : Real.sin G ^ 2 * 1 ^ 2 + Real.cos ((pradians lat1 + pradians lat2) / 2) ^ 2 * 0 ^ 2 = Real.sin G ^ 2 := by ring
+    have hang : Real.arcsin (Real.sqrt (Real.sin G ^ 2)) = |G| := by
+      rw [Real.sqrt_sq_eq_abs]
+      rcases abs_choice G with hg | hg
+      · have : 0 ≤ G := abs_eq_self.mp hg
+        rw [hg, abs_of_nonneg (Real.sin_nonneg_of_nonneg_of_le_pi this (by linarith [(abs_lt.mp hGabs).2]))]
+        exact Real.arcsin_sin (by linarith) (by linarith [(abs_lt.mp hGabs).2])
+      · have hn : G ≤ 0 := abs_eq_neg_self.mp hg
+        rw [hg, abs_of_nonpos (Real.sin_nonpos_of_nonpos_of_neg_pi_le hn (by linarith [(abs_lt.mp hGabs).1])), ← Real.sin_neg]
+        exact Real.arcsin_sin (by linarith [(abs_lt.mp hGabs).2]) (by linarith [(abs_lt.mp hGabs).1])
+    rw [hsq, hang] at lo hi
+    have e : el.a * |pradians lat1 - pradians lat2| = 2 * |G| * el.a := by
+      have : pradians lat1 - pradians lat2 = 2 * G := by rw [hG]; ring
+      rw [this, abs_mul, abs_of_pos (by norm_num : (0:ℝ) < 2)]; ring
+    rw [e]
+  · exact lo
+  · exact hi
+
+/-- Along a meridian Andoyer's formula is EXACTLY the first-order (in `f`) meridian arc: for two distinct points of one
+    meridian less than 180° apart, `dist = a [ (1 − f/2) |Δφ| − (3f/2) sin|Δφ| cos(φ₁+φ₂) ]`, which is
+    `∫ a (1 − f/2 − (3f/2) cos 2φ) dφ` between the two latitudes — the integrand being the expansion to first order in `f`
+    of the meridian radius of curvature `a(1−e²)/(1−e² sin²φ)^(3/2) = a (1 − 2f + 3f sin²φ) + O(f²)`.  So the 1e-4
+    clause is an `O(f²)` statement (error `≈ f²` relative; it is evaluated on the implementation). -/
+theorem distance_meridian_first_order {el : Ell} (lon : ℝ) {lat1 lat2 : ℝ} (hne : lat1 ≠ lat2) (hlt : |lat1 - lat2| < 180) :
+    ∃ d err, distance el lon lat1 lon lat2 = .ok (d, err) ∧
+      d = el.a * ((1 - el.f / 2) * |pradians lat1 - pradians lat2|
+            - 3 * el.f / 2 * Real.sin |pradians lat1 - pradians lat2| * Real.cos (pradians lat1 + pradians lat2)) := by
+  have hpi := Real.pi_pos
+  obtain ⟨G, hG⟩ : ∃ G, G = (pradians lat1 - pradians lat2) / 2 := ⟨_, rfl⟩
+  obtain ⟨F, hF⟩ : ∃ F, F = (pradians lat1 + pradians lat2) / 2 := ⟨_, rfl⟩
+  have hGe : G = (lat1 - lat2) * (π / 360) := by rw [hG]; unfold pradians; ring
+  have hGabs : |G| < π / 2 := by
+    rw [hGe, abs_mul, abs_of_pos (by positivity : (0:ℝ) < π / 360)]
+    calc |lat1 - lat2| * (π / 360) < 180 * (π / 360) := mul_lt_mul_of_pos_right hlt (by positivity)
+      _ = π / 2 := by ring
+  have hG0 : G ≠ 0 := by rw [hGe]; exact mul_ne_zero (sub_ne_zero.mpr hne) (by positivity)
+  have hGpos : 0 < |G| := abs_pos.mpr hG0
+  have hcos : 0 < Real.cos G := Real.cos_pos_of_mem_Ioo ⟨(abs_lt.mp hGabs).1, (abs_lt.mp hGabs).2⟩
+  have hsin : Real.sin G ≠ 0 := by
+    intro hs
+    exact hG0 ((Real.sin_eq_zero_iff_of_lt_of_lt (by linarith [(abs_lt.mp hGabs).1]) (by linarith [(abs_lt.mp hGabs).2])).mp hs)
+  have hL : (pradians lon - pradians lon) / 2 = 0 := by ring
+  obtain ⟨_, _, hform⟩ := distance_is_andoyer el lon lat1 lon lat2
+  simp only [hL, Real.sin_zero, Real.cos_zero, ← hG, ← hF] at hform
+  have hs2 : 0 < Real.sin G ^ 2 := by positivity
+  have hc2 : 0 < Real.cos G ^ 2 := by positivity
+  have es : Real.sin G ^ 2 * 1 ^ 2 + Real.cos F ^ 2 * 0 ^ 2 = Real.sin G ^ 2 := by ring
+  have ec : Real.cos G ^ 2 * 1 ^ 2 + Real.sin F ^ 2 * 0 ^ 2 = Real.cos G ^ 2 := by ring
+  rw [es, ec] at hform
+  refine ⟨_, _, hform hs2 hc2, ?_⟩
+  -- ω = |G|
+  have hom : Real.arctan (Real.sqrt (Real.sin G ^ 2 / Real.cos G ^ 2)) = |G| := by
+    have : Real.sin G ^ 2 / Real.cos G ^ 2 = Real.tan G ^ 2 := by rw [Real.tan_eq_sin_div_cos, div_pow]
+    rw [this, Real.sqrt_sq_eq_abs]
+    rcases abs_choice G with hl | hl
+    · have hl0 : 0 ≤ G := abs_eq_self.mp hl
+      rw [abs_of_nonneg (Real.tan_nonneg_of_nonneg_of_le_pi_div_two hl0 (by linarith [(abs_lt.mp hGabs).2])), hl]
+      exact Real.arctan_tan (by linarith) (abs_lt.mp hGabs).2
+    · have hl0 : G ≤ 0 := abs_eq_neg_self.mp hl
+      rw [abs_of_nonpos (Real.tan_nonpos_of_nonpos_of_neg_pi_div_two_le hl0 (by linarith [(abs_lt.mp hGabs).1])), hl,
+        ← Real.tan_neg]
+      exact Real.arctan_tan (by linarith [(abs_lt.mp hGabs).2]) (by linarith [(abs_lt.mp hGabs).1])
+  -- sqrt(s c) = |sin G| cos G, and 2 |sin G| cos G = sin |2G|
+  have hsc : Real.sqrt (Real.sin G ^ 2 * Real.cos G ^ 2) = |Real.sin G| * Real.cos G := by
+    rw [← mul_pow, Real.sqrt_sq_eq_abs, abs_mul, abs_of_pos hcos]
+  have hsin2 : Real.sin |pradians lat1 - pradians lat2| = 2 * (|Real.sin G| * Real.cos G) := by
+    have h2 : pradians lat1 - pradians lat2 = 2 * G := by rw [hG]; ring
+    rw [h2, abs_mul, abs_of_pos (by norm_num : (0:ℝ) < 2), Real.sin_two_mul]
+    rcases abs_choice G with hl | hl
+    · have hl0 : 0 ≤ G := abs_eq_self.mp hl
+      rw [hl, abs_of_nonneg (Real.sin_nonneg_of_nonneg_of_le_pi hl0 (by linarith [(abs_lt.mp hGabs).2]))]; ring
+    · have hl0 : G ≤ 0 := abs_eq_neg_self.mp hl
+      rw [hl, Real.sin_neg, Real.cos_neg, abs_of_nonpos (Real.sin_nonpos_of_nonpos_of_neg_pi_le hl0 (by linarith [(abs_lt.mp hGabs).1]))]
+      ring
+  have hcos2 : Real.cos (pradians lat1 + pradians lat2) = Real.cos F ^ 2 - Real.sin F ^ 2 := by
+    have h2 : pradians lat1 + pradians lat2 = 2 * F := by rw [hF]; ring
+    rw [h2, Real.cos_two_mul']
+  have habsd : |pradians lat1 - pradians lat2| = 2 * |G| := by
+    have h2 : pradians lat1 - pradians lat2 = 2 * G := by rw [hG]; ring
+    rw [h2, abs_mul, abs_of_pos (by norm_num : (0:ℝ) < 2)]
+  rw [hom, hsc, hsin2, hcos2, habsd]
+  have hFF := Real.sin_sq_add_cos_sq F
+  obtain ⟨S, hS⟩ : ∃ S, S = |Real.sin G| * Real.cos G := ⟨_, rfl⟩
+  rw [← hS]
+  have hg : |G| ≠ 0 := hGpos.ne'
+  have hs2' : Real.sin G ^ 2 ≠ 0 := hs2.ne'
+  have hc2' : Real.cos G ^ 2 ≠ 0 := hc2.ne'
+  field_simp
+  have hc : Real.cos F ^ 2 = 1 - Real.sin F ^ 2 := by linarith
+  rw [hc]
+  ring
+
+example : ∃ d err, distance WGS84 33 0 33 10 = .ok (d, err) ∧
+    (1 - 5 / 2 * WGS84.f) * (WGS84.a * |pradians 0 - pradians 10|) ≤ d ∧
+    d ≤ (1 + WGS84.f) * (WGS84.a * |pradians 0 - pradians 10|) :=
+  distance_meridian_partial wgs84_valid 33 (by norm_num) (by norm_num [abs_lt])
+
 /-- Antipodal points: the property promises nothing beyond symmetry.  In exact real arithmetic the model divides by
     zero (`c = 0`): `distance(λ, φ, λ + 180°, −φ)` is a `ZeroDivisionError`.  (In binary64 `cos(π/2) ≠ 0`, so the
     implementation returns a finite value there; see the harness class `distance/antipodal`.) -/
@@ -383,6 +744,50 @@ theorem parallax_ecliptical_south_latitude {lat dist : ℝ} (obl : ℝ) (h1 : -9
       rw [Complex.arg_neg_iff]; show ezz lat 0 obl 0 dist 0 < 0; rw [hez]; exact hsin
     unfold elat
     exact mul_neg_of_neg_of_pos this (by positivity)
+
+/-- Behaviour at the pole ("poles included"): as the latitude tends to 90° the observer's coordinates tend to
+    `(ρ cos φ', ρ sin φ') = (0, b/a + h/a)` — the polar radius plus the height, the height term being kept.  (Over ℝ the
+    value AT 90° is not used: Mathlib's `tan (π/2)` is a junk 0, while binary64 `tan(radians(90))` is 1.6e16; the limit
+    is the statement that is true of both.) -/
+theorem rho_pole_limit {el : Ell} (h : Valid el) (height : ℝ) :
+    Tendsto (fun lat => valueOr 0 (rho_sinphi el lat height)) (𝓝[<] 90) (𝓝 (el.b / el.a + height / el.a)) ∧
+    Tendsto (fun lat => valueOr 0 (rho_cosphi el lat height)) (𝓝[<] 90) (𝓝 0) := by
+  have hpi := Real.pi_pos
+  have hf : 0 < 1 - el.f := by linarith [h.f_lt_one]
+  have hx : Tendsto (fun lat : ℝ => pradians lat) (𝓝[<] 90) (𝓝[<] (π / 2)) := by
+    apply tendsto_nhdsWithin_of_tendsto_nhds_of_eventually_within
+    · have hc : Continuous (fun lat : ℝ => pradians lat) := by unfold pradians; fun_prop
+      have := (hc.tendsto 90).mono_left (nhdsWithin_le_nhds (s := Set.Iio 90))
+      have e : pradians 90 = π / 2 := by unfold pradians; ring
+      rwa [e] at this
+    · filter_upwards [self_mem_nhdsWithin] with lat hlat
+      have : lat < 90 := hlat
+      show pradians lat < π / 2
+      unfold pradians; nlinarith
+  have hx' : Tendsto (fun lat : ℝ => pradians lat) (𝓝[<] 90) (𝓝 (π / 2)) := hx.mono_right nhdsWithin_le_nhds
+  have htan : Tendsto (fun lat => (1 - el.f) * Real.tan (pradians lat)) (𝓝[<] 90) atTop :=
+    (Real.tendsto_tan_pi_div_two.comp hx).const_mul_atTop hf
+  have hu : Tendsto (fun lat => Real.arctan ((1 - el.f) * Real.tan (pradians lat))) (𝓝[<] 90) (𝓝 (π / 2)) :=
+    (Real.tendsto_arctan_atTop.mono_right nhdsWithin_le_nhds).comp htan
+  have hsinu := (Real.continuous_sin.tendsto (π / 2)).comp hu
+  have hcosu := (Real.continuous_cos.tendsto (π / 2)).comp hu
+  have hsinx := (Real.continuous_sin.tendsto (π / 2)).comp hx'
+  have hcosx := (Real.continuous_cos.tendsto (π / 2)).comp hx'
+  rw [Real.sin_pi_div_two] at hsinu hsinx
+  rw [Real.cos_pi_div_two] at hcosu hcosx
+  have hba : el.b / el.a = 1 - el.f := by rw [b_eq]; field_simp [h.a_pos.ne']
+  constructor
+  · have := (hsinu.const_mul (1 - el.f)).add (hsinx.const_mul (height / el.a))
+    rw [mul_one, mul_one] at this
+    rw [hba]
+    refine this.congr' ?_
+    filter_upwards with lat
+    simp only [rho_sinphi_eq h, valueOr, Function.comp]
+  · have := hcosu.add (hcosx.const_mul (height / el.a))
+    rw [mul_zero, add_zero] at this
+    refine this.congr' ?_
+    filter_upwards with lat
+    simp only [rho_cosphi_eq h, valueOr, Function.comp]
 
 /-- The hypotheses of `parallax_ecliptical_south_latitude` are satisfiable (β = -10°, 1 AU). -/
 example : sin_pi0 / 1 < Real.cos (pradians (-10)) := by
